@@ -25,15 +25,12 @@ func VerifDump(tp *TokenParser) string {
 	return strings.Join(parts, ",") + "|past=" + strconv.FormatBool(past)
 }
 
-// VerifAged constructs a NEW parser with the same counters as tp whose bookkeeping start time
-// lies `age` further in the past - the state tp would be in after the clock advanced by `age`
-// (construct-only: what an in-package test does with parser.resetTime, see tokenparser_test.go).
+// VerifAged moves tp's bookkeeping start time `age` further into the past - the state tp is in
+// after the clock advanced by `age` - and returns tp. tp was built by the REAL NewTokenParser, so
+// every field a change may have added (pools, caches, ...) is initialised and keeps its content;
+// only resetTime is adjusted (what an in-package test does with parser.resetTime, see
+// tokenparser_test.go).
 func VerifAged(tp *TokenParser, age time.Duration) *TokenParser {
-	n := &TokenParser{resetTime: tp.resetTime - age, resetDuration: tp.resetDuration}
-	tp.history.Range(func(k, v any) bool {
-		c := *v.(*uint64)
-		n.history.Store(k, &c)
-		return true
-	})
-	return n
+	tp.resetTime -= age
+	return tp
 }
